@@ -143,7 +143,9 @@ def theorem_names(prop_id: str):
 SRC_TIE = {
     'C03': {'Block': ['Block1014.write', 'Block1014.finalise'], 'Reader': ['VbsReader.__next__'],
             'Writer': ['VbsWriter.write', 'VbsWriter.close', 'VbsWriter.__exit__'],
-            'RoundTrip': ['VbsWriter.write', 'VbsWriter.close', 'VbsReader.__next__']},
+            'RoundTrip': ['VbsWriter.write', 'VbsWriter.write_many', 'VbsWriter.close', 'VbsReader.__next__']},
+    'C06': {'IpmRoundTrip': ['IpmWriter.write', 'IpmWriter.write_many', 'IpmReader.__next__', 'VbsWriter.write',
+                             'VbsWriter.close', 'VbsReader.__next__']},
     'C11': {'Writer': ['VbsWriter.write', 'VbsWriter.close', 'VbsWriter.__exit__']},
     'C09': {'Reader': ['VbsReader.__next__']},
     'C10': {'Reader': ['VbsReader.__next__'], 'IpmReader': ['IpmReader.__next__', 'VbsReader.__next__']},
